@@ -243,11 +243,18 @@ def run_scenario(sc, observe="all"):
                         elif a[0] == "place":
                             _, oid, sel, side, t, opt = a
                             opt = opt or {}
+                            tmk = market
+                            if opt.get("on") is not None:
+                                # a request on another market of the run, issued from this market's callback
+                                tmk = fw.markets.markets.get(sc["markets"][opt["on"]]["id"])
+                                if tmk is None:
+                                    rec.requests.append([self.idx, mi, u, a[0], a[1], "nomarket", {}])
+                                    continue
                             tn = opt.get("trade")
                             if tn and tn in trades:
                                 tr = trades[tn]
                             else:
-                                tr = Trade(market.market_id, sel, opt.get("hc", 0), self, reset_seconds=opt.get("reset", 0.0), place_reset_seconds=opt.get("place_reset", 0.0))
+                                tr = Trade(tmk.market_id, sel, opt.get("hc", 0), self, reset_seconds=opt.get("reset", 0.0), place_reset_seconds=opt.get("place_reset", 0.0))
                                 if tn:
                                     trades[tn] = tr
                             if t["t"] == "L":
@@ -263,7 +270,7 @@ def run_scenario(sc, observe="all"):
                                 ot = MarketOnCloseOrder(liability=t["l"])
                             o = tr.create_order(side, ot)
                             names[oid] = o; rev[id(o)] = oid
-                            tgt = txn if txn is not None else market
+                            tgt = txn if txn is not None else tmk
                             kw = dict(market_version=opt.get("mv"), force=opt.get("force", False))
                             if txn is None:
                                 kw["client"] = cls[self.spec.get("client", 0)]
@@ -274,6 +281,8 @@ def run_scenario(sc, observe="all"):
                             o = names.get(a[1])
                             opt = (a[3] if len(a) > 3 else None) or {}
                             tgt = txn if txn is not None else market
+                            if txn is None and o is not None and o.market_id != market.market_id:
+                                tgt = fw.markets.markets.get(o.market_id) or market     # the order's own market, whichever callback we are in
                             if o is not None:
                                 extra["before"] = [o.status.value if o.status else None, o.bet_id, len(o.status_log), dict(o.update_data), o.size_remaining, o.order_type.ORDER_TYPE.name,
                                                    getattr(o.order_type, "price", None), getattr(o.order_type, "persistence_type", None)]
